@@ -331,3 +331,42 @@ class Flyer(Base):
         self.collected += 1
         for i in range(self.n_events):
             yield {"data": {self.name + "_x": float(i)}, "timestamps": {self.name + "_x": 5.0 + i}, "time": 5.0 + i}
+
+
+class StreamDet:
+    parent = None
+
+    def __init__(self, name, log):
+        self.name = name
+        self.log = log
+        self.written = 0
+        self.emitted = 0
+        self.res_emitted = False
+        self.key = f"{name}-sd"
+
+    def describe_collect(self):
+        return {self.key: {"source": "file", "dtype": "number", "shape": [4, 4], "external": "STREAM:"}}
+
+    def get_index(self):
+        self.log.append(("dev", self.name, "get_index", self.written, None))
+        return self.written
+
+    def collect_asset_docs(self, index=None):
+        if index is None:
+            index = self.written
+        self.log.append(("dev", self.name, "collect_asset_docs", index, None))
+        if not self.res_emitted:
+            self.res_emitted = True
+            yield "stream_resource", {"uid": f"{self.name}-res", "data_key": self.key, "mimetype": "application/x-hdf5",
+                                      "uri": "file://localhost/tmp/x.h5", "parameters": {"dataset": "/data"}, "run_start": ""}
+        if index > self.emitted:
+            yield "stream_datum", {"uid": f"{self.name}-res/{self.emitted}", "stream_resource": f"{self.name}-res",
+                                   "descriptor": "", "indices": {"start": self.emitted, "stop": index},
+                                   "seq_nums": {"start": 0, "stop": 0}}
+            self.emitted = index
+
+    def kickoff(self):
+        raise NotImplementedError
+
+    def complete(self):
+        raise NotImplementedError
